@@ -176,3 +176,31 @@ def check_reference_workbook(ctx, anchor, label, why):
                    f'in a second workbook with the same formula texts, A1 = 4 and the names bound elsewhere (rate -> Data!A1, base -> Data 2!A3) '
                    f'{addr} evaluates to {got!r}, expected {want}. {why}')
     return n
+
+
+def check_names_history(ctx, anchor, label, why):
+    """The reference workbook again, now with edits: an input is set through its address and through its defined name, formulas
+    that reach it through the name, through a range, across sheets and through other formulas are re-evaluated and compared with
+    hand-computed values (and the name itself evaluates to the new value)."""
+    wb = W.Workbook(ctx, sheets=REF_SHEETS, names=REF_NAMES)
+    first = ['Data!C2', 'Data!C3', 'Data!C5', 'Data 2!C6', 'Data!C4', 'rate']
+    for a in first:
+        wb.value(a)
+    steps = [
+        ('set', 'Data 2!A2', 500), ('eval', 'Data!C2', 1000), ('eval', 'Data!C3', 505), ('eval', 'rate', 500), ('eval', 'Data 2!C5', 1500),
+        ('eval', 'Data!C5', 1502), ('eval', 'Data 2!C6', 1602), ('eval', 'Data!C4', 910),
+        ('set', 'base', 50), ('eval', 'Data!C3', 550), ('eval', 'Data!B2', 55), ('eval', 'Data!B3', 75), ('eval', 'Data 2!B3', 975), ('eval', 'base', 50),
+        ('set', 'rate', 1), ('eval', 'Data!C2', 2), ('eval', 'Data 2!B1', 401), ('eval', 'Data!C1', 421), ('eval', 'Data 2!C1', 1421),
+    ]
+    n = 0
+    trail = []
+    for st in steps:
+        if st[0] == 'set':
+            wb.set(st[1], st[2])
+            trail.append(f'set {st[1]}={st[2]}')
+            continue
+        got = wb.value(st[1])
+        n += 1
+        ctx.expect(same(got, ('Number', st[2])), anchor, f'{label}: {st[1]} after [{"; ".join(trail)}]',
+                   f'after {"; ".join(trail)} (every cell had been evaluated before), {st[1]} evaluates to {got!r}, expected {st[2]}. {why}')
+    return n
